@@ -762,6 +762,10 @@ def flatten(self, *dims, **kwargs):
     # (copies: the grouped axis caches its name and tuple labels, which would go stale
     # if the member axes remained shared with - and were later edited through - this array)
     newaxis = MultiAxis(*[ax.copy() for ax in self.axes if ax.name in dims])
+    if len(newaxis.axes) == 1:
+        # a "group" of one dimension is that dimension: same name, same labels (a grouped axis with a
+        # single member would keep the member's old name and labels after being renamed or relabelled)
+        newaxis = newaxis.axes[0]
 
     # New axes
     newaxes = [ax for ax in self.axes if ax.name not in dims]
@@ -805,7 +809,8 @@ def unflatten(self, axis=None):
     group = self.axes[axis]    # axis to expand
     axis = self.dims.index(group.name) # make axis be an integer
 
-    assert isinstance(group, MultiAxis), "can only unflatten a MultiAxis"
+    if not isinstance(group, MultiAxis):
+        return self # a single dimension (also what flatten returns for a group of one): nothing to undo
 
     newshape = self.shape[:axis] + tuple(ax.size for ax in group.axes) + self.shape[axis+1:]
     newvalues = self.values.reshape(newshape)
